@@ -1,6 +1,6 @@
 (* K-val and K-ops channels on the model. *)
 From Coq Require Import Strings.String.
-From BP7 Require Import Base.Prelude Base.Decimal Gen.Consts Model.Hex Model.Types Model.Encode Model.Decode Model.Validate Model.Ops Model.DtnTime Model.EidText.
+From BP7 Require Import Base.Prelude Base.Decimal Gen.Consts Model.Hex Model.Types Model.Encode Model.Decode Model.Validate Model.Ops Model.DtnTime Model.EidText Model.AdminRecord.
 From BP7 Require Import Run.Proto Run.BundleIO.
 
 Definition show_validity (b : bundle) : list byte :=
@@ -19,7 +19,7 @@ Definition run_validate (args : list tok) : list byte :=
 
 Inductive op :=
   | OAdd (c : canonical) | OSetPayload (d : list byte) | OSetPayloadBlock (c : canonical)
-  | OSetCrc (code : N) | OUpdate (node : eid) (residence : N) | OSort | OQuery.
+  | OSetCrc (code : N) | OUpdate (node : eid) (residence : N) | OSort | OQuery | OLifeNs (n : N).
 
 Definition parse_op : P op := fun ts =>
   match ts with
@@ -31,6 +31,7 @@ Definition parse_op : P op := fun ts =>
     else if tok_is t "UPD" then (let* e := parse_eid in let* n := pN in pret (OUpdate e n)) r
     else if tok_is t "SORT" then Some (OSort, r)
     else if tok_is t "Q" then Some (OQuery, r)
+    else if tok_is t "LIFENS" then (let* n := pN in pret (OLifeNs n)) r
     else None
   | [] => None
   end.
@@ -65,7 +66,12 @@ Definition query (m : ovf_mode) (clock : N) (b : bundle) : res (list byte) :=
                              show_bool (is_node_id e); show_bool (is_non_singleton e)] in
   let eids := [p_dst (b_primary b); p_src (b_primary b); p_rpt (b_primary b)]
               ++ match previous_node b with Some e => [e] | None => [] end in
-  Ok (join ([S_ "CRC"; show_bool (crc_valid b); S_ "ADM"; show_bool (is_admin_record b);
+  let rec := if is_admin_record b then
+               match payload b with
+               | Some d => match admin_from_bytes d with Ok _ => S_ "OK" | Err _ => S_ "ERR" | Panic _ => S_ "PANIC" end
+               | None => S_ "NOPL" end
+             else S_ "-" in
+  Ok (join ([S_ "CRC"; show_bool (crc_valid b); S_ "ADM"; show_bool (is_admin_record b); S_ "REC"; rec;
              S_ "PREV"; match previous_node b with Some e => show_eid e | None => S_ "-" end;
              S_ "LTX"; show_bool ltx; S_ "TS"; show_bytes ts] ++ map acc eids)).
 
@@ -79,6 +85,8 @@ Definition step (m : ovf_mode) (clock : N) (b : bundle) (o : op) : res (list byt
   | OSort => Ok (S_ "-", sort_canonicals b)
   | OUpdate e n => do rb <- update_extensions m clock e n b; Ok (show_bool (fst rb), snd rb)
   | OQuery => do q <- query m clock b; Ok (q, b)
+  (* the lifetime Duration gets a sub-millisecond part: the model counts whole milliseconds (as_millis), nothing changes *)
+  | OLifeNs n => if n <? 1000000 then Ok (S_ "-", b) else Err ERange
   end.
 Fixpoint run_steps (m : ovf_mode) (clock : N) (b : bundle) (ops : list op) : res (list (list byte) * bundle) :=
   match ops with
